@@ -19,3 +19,40 @@ def pool(name="Pool", **over):
     t = TAbs(name, fields=f)
     t.isa = ["cobald.interfaces._pool:Pool"]
     return t
+
+
+# ---- logging.Logger as an abstract collaborator -------------------------------------------------------
+from pyvc import ext_libs as _X
+import pyvc.z as _Z
+
+
+@contract("abstract:logging.Logger.quiet", kind="abstract", skip_body=True)
+class _quiet_log:
+    """_logger.info/debug/warning/exception/error: total, effect-free, non-raising (DESIGN.md 2.2: dropped by the extraction)"""
+    params = {"self": None, "*args": None}
+
+
+@contract("abstract:logging.Logger.log", kind="abstract", skip_body=True)
+class _log_call:
+    """Logger.log(level, msg, mapping): one `log` event carrying a record of the mapping.
+    requires (assumed contract of %-formatting): every field the template names is a key of the mapping"""
+    params = {"self": None, "level": None, "msg": TStr(), "mapping": None}
+
+    def requires(c, self, level, msg, mapping):
+        return {"template-fields-are-keys-of-the-record": _X.names_within(_Z.Val.s(msg.t), list(mapping.keys()))}
+
+    def emits(c, ctx, self, level, msg, mapping):
+        rec = ctx.alloc(None, TRef())
+        for k, v in mapping.items():
+            ctx.store_raw(ctx.ref_id(rec), "rec:" + k, v.t if hasattr(v, "t") else ctx.to_val(v).t)
+        ctx.ghost["last_record_keys"] = list(mapping.keys())
+        ctx.emit("log", self, level, msg, rec)
+
+
+PyLogger = TAbs("PyLogger", fields=dict(name=TStr()),
+                methods=dict(info=_quiet_log, debug=_quiet_log, warning=_quiet_log, error=_quiet_log, exception=_quiet_log, log=_log_call),
+                events=False)
+
+
+def install_shared(E):
+    E.shared_types["PyLogger"] = PyLogger
